@@ -47,7 +47,7 @@ TEXT = {
          'Held on the executions produced: charmm/amber peptides through the real RepairGraph and synthetic modification sets built around the cover search.'),
  'C15': ('pairwise five-criteria reference on the elastic bonds; paired executions for rigid motion / atom order; NaN run must warn',
          'Held on the executions produced: generated molecules with irregular selections, domains, near-threshold pairs.'),
- 'C16': ('round trip through the real writers and readers compared field by field with format tolerances',
+ 'C16': ('round trip through the real writers and readers compared field by field with format tolerances; the system handed to the writer compared with its description after every write; one known finding classified by mechanism',
          'Held on the executions produced: systems up to 100 005 atoms crossing every field-width boundary.'),
  'C17': ('per-residue reference assignment on node attributes after AnnotateResidues (fresh and reused processor objects, residue identities edited in place between rounds); rule-table oracle for DSSP translation (exhaustive to length 4/6); AnnotateDSSP through the real mdtraj reader with only mdtraj.compute_dssp replaced by a residue-labelling stub',
          'Held on the executions produced; DSSP strings are enumerated exhaustively up to length 4 (quick) / 6 (thorough).'),
